@@ -18,7 +18,7 @@ class LangGen:
     def __init__(self, rnd: random.Random, n_assets=None, knobs=None):
         self.r = rnd
         self.k = {'dup_assoc_names': 0.25, 'reuse_fields': 0.2, 'setops': 0.5, 'trans': 0.3, 'vars': 0.5,
-                  'subtype': 0.4, 'abstract': 0.3, 'redefine': 0.6}
+                  'subtype': 0.6, 'abstract': 0.3, 'redefine': 0.6}
         if knobs: self.k.update(knobs)
         self.n = n_assets or rnd.randint(2, 6)
 
@@ -49,10 +49,12 @@ class LangGen:
                 if s['name'] == name: return s['type']
         return None
     def vars_of(self, t):
+        """variables visible from type t: name -> (expression, result type, declaring asset); the nearest declaration
+        wins (MAL forbids re-declaring a variable of an ancestor, so there is exactly one)"""
         res = {}
         for u in self.ancestors(t):
             for v in self.variables[u]:
-                res.setdefault(v['name'], (v['stepExpression'], self.var_type[v['name']]))
+                res.setdefault(v['name'], (v['stepExpression'], self.var_type[(u, v['name'])], u))
         return res
     def lca(self, t, u):
         for x in self.ancestors(t):
@@ -98,23 +100,42 @@ class LangGen:
             # inner expression from t to a subtype of t, so that it can be iterated
             for _ in range(6):
                 e = self.nav(t, min(depth - 1, 1), allow_vars)
-                if e and self.is_sub(e[1], t) and self.distributive(e[0]):
+                if e and self.is_sub(e[1], t) and self.distributive(e[0], t):
                     return ({'type': 'transitive', 'stepExpression': e[0]}, e[1])
             return None
         if c == 'sub':
             e = self.nav(t, depth - 1, allow_vars)
             if not e: return None
             subs = [x for x in self.descendants(e[1])]
-            v = r.choice(subs)
+            # prefer a strict sub asset that has sub assets of its own: the filter must then accept assets two or
+            # more levels below the named type and reject its super assets
+            deep = [x for x in subs if x != e[1] and len(self.descendants(x)) > 1]
+            v = r.choice(deep) if deep and r.random() < 0.6 else r.choice(subs)
             return ({'type': 'subType', 'subType': v, 'stepExpression': e[0]}, v)
 
-    def distributive(self, e):
-        t = e['type']
-        if t in ('field',): return True
-        if t == 'variable': return self.distributive(self.var_expr[e['name']])
-        if t in ('collect', 'union'): return self.distributive(e['lhs']) and self.distributive(e['rhs'])
-        if t in ('transitive', 'subType'): return self.distributive(e['stepExpression'])
-        return False
+    def distributive(self, e, t):
+        """does expression e (typed from asset type t) distribute over unions of sources?  (needed under `*`)"""
+        return self._dist(e, t)[0]
+    def _dist(self, e, t):
+        k = e['type']
+        if k == 'field': return True, self.fields_of(t).get(e['name'])
+        if k == 'variable':
+            d = self.vars_of(t).get(e['name'])
+            if d is None: return False, None
+            return self._dist(d[0], d[2])[0], d[1]
+        if k == 'collect':
+            a, ta = self._dist(e['lhs'], t)
+            if ta is None: return False, None
+            b, tb = self._dist(e['rhs'], ta)
+            return a and b, tb
+        if k == 'union':
+            a, ta = self._dist(e['lhs'], t); b, tb = self._dist(e['rhs'], t)
+            return a and b, (self.lca(ta, tb) if ta and tb else None)
+        if k in ('intersection', 'difference'):
+            return False, self._dist(e['lhs'], t)[1]
+        if k == 'transitive': return self._dist(e['stepExpression'], t)
+        if k == 'subType': return self._dist(e['stepExpression'], t)[0], e['subType']
+        return False, None
 
     def reach_expr(self, t):
         """navigation (possibly empty) followed by an attack step of the target type"""
@@ -176,6 +197,22 @@ class LangGen:
                 #  an association with the same field name on both ends cannot be represented — recorded finding KF-C06-1)
                 cand_l = [f for f in pool if f not in owned_by(ra) and f != rf]
                 if cand_l and r.random() < 0.5: lf = r.choice(cand_l)
+            if self.assocs and r.random() < self.k.get('crossed_twin', 0.15):
+                # the same pair of role names between the same two asset types, the other way round, under another
+                # name:  A [x] <-- N --> [y] B   and   B [x] <-- M --> [y] A   (A.y: B, B.x: A; B.y: A, A.x: B)
+                prev = r.choice(self.assocs)
+                if prev['leftAsset'] != prev['rightAsset'] and not (self.is_sub(prev['leftAsset'], prev['rightAsset']) or self.is_sub(prev['rightAsset'], prev['leftAsset'])):
+                    def owned(t):
+                        res = set()
+                        for a in self.assocs:
+                            if self.is_sub(t, a['leftAsset']) or self.is_sub(a['leftAsset'], t): res.add(a['rightField'])
+                            if self.is_sub(t, a['rightAsset']) or self.is_sub(a['rightAsset'], t): res.add(a['leftField'])
+                        return res
+                    if prev['rightField'] not in owned(prev['rightAsset']) and prev['leftField'] not in owned(prev['leftAsset']) \
+                            and prev['leftField'] != prev['rightField']:
+                        la, ra, lf, rf, nm = prev['rightAsset'], prev['leftAsset'], prev['leftField'], prev['rightField'], f'Twin{i}'
+            if r.random() < self.k.get('same_field_both_ends', 0.0) and la != ra:
+                rf = lf          # language-graph level only: no class can be generated for it (KF-C06-1)
             lm, rm = r.choice(MULTS), r.choice(MULTS)
             cand = {'name': nm, 'meta': {} if r.random() < 0.7 else {'user': 'assoc info'},
                     'leftAsset': la, 'leftField': lf, 'leftMultiplicity': {'min': lm[0], 'max': lm[1]},
@@ -191,7 +228,7 @@ class LangGen:
                     sn = r.choice(inherited); ty = self.step_type(nm, sn)
                 else:
                     sn = r.choice(pool)
-                    ty = self.step_type(nm, sn) or r.choices(['or', 'and', 'defense', 'exist', 'notExist'], [5, 5, 2, 1, 1])[0]
+                    ty = self.step_type(nm, sn) or r.choices(['or', 'and', 'defense', 'exist', 'notExist'], [5, 5, 2, self.k.get('exist_w', 1), self.k.get('exist_w', 1)])[0]
                 if any(s['name'] == sn for s in self.steps[nm]): continue
                 meta = {}
                 if r.random() < 0.3: meta['user'] = f'info {sn}'
@@ -201,16 +238,22 @@ class LangGen:
                                        'risk': r.choice([None, None, {'isConfidentiality': True, 'isIntegrity': False, 'isAvailability': True}]),
                                        'ttc': copy.deepcopy(r.choice(TTC_DEF if ty == 'defense' else TTC_STEP)) if ty not in ('exist', 'notExist') else None,
                                        'requires': None, 'reaches': None})
-        # variables (acyclic: may use variables of ancestors and earlier ones of the same asset)
+        # variables (acyclic: may use variables of ancestors and earlier ones of the same asset).  A name may be used
+        # again by an asset that is neither an ancestor nor a descendant of a declaring asset (no shadowing along a
+        # chain, as malc demands): `let reach = …` on two unrelated assets are two different variables.
         self.variables = {nm: [] for nm in self.names}
-        self.var_type, self.var_expr = {}, {}
+        self.var_type = {}
         vc = 0
         for nm in self.names:
             for _ in range(r.choice([0, 0, 1, 2])):
                 e = self.nav(nm, r.choice([0, 1, 2]))
                 if e:
-                    v = f'v{vc}'; vc += 1
-                    self.var_type[v] = e[1]; self.var_expr[v] = e[0]
+                    related = set(self.ancestors(nm)) | set(self.descendants(nm))
+                    taken = {v['name'] for u in related for v in self.variables[u]}
+                    reusable = sorted({v['name'] for u in self.names if u not in related for v in self.variables[u]} - taken)
+                    if reusable and r.random() < self.k.get('reuse_vars', 0.4): v = r.choice(reusable)
+                    else: v = f'v{vc}'; vc += 1
+                    self.var_type[(nm, v)] = e[1]
                     self.variables[nm].append({'name': v, 'stepExpression': e[0]})
         # requires / reaches
         for nm in self.names:
@@ -220,6 +263,11 @@ class LangGen:
             for s in self.steps[nm]:
                 if s['type'] in ('exist', 'notExist'):
                     e = self.nav(nm, r.choice([0, 1, 2]))
+                    if e is not None and r.random() < 0.4:
+                        # requirement narrowed to a sub asset that has sub assets of its own (`<- hosts[Server]`)
+                        deep = [x for x in self.descendants(e[1]) if len(self.descendants(x)) > 1] or self.descendants(e[1])
+                        v = r.choice(deep)
+                        e = ({'type': 'subType', 'subType': v, 'stepExpression': e[0]}, v)
                     if e is None:
                         s['type'] = 'or'; s['ttc'] = None
                     else:
@@ -238,6 +286,8 @@ class LangGen:
                             'isAbstract': self.abstract[nm], 'superAsset': self.parent[nm],
                             'variables': self.variables[nm], 'attackSteps': self.steps[nm]} for nm in self.names],
                 'associations': self.assocs}
+        # the order of the declarations carries no meaning: a sub asset may be declared before its super asset
+        if r.random() < self.k.get('shuffle_assets', 0.3): r.shuffle(spec['assets'])
         return spec
 
 def chain_language(rnd: random.Random):
@@ -256,10 +306,11 @@ def chain_language(rnd: random.Random):
         if k > 0.8: nav = {'type': 'transitive', 'stepExpression': nav}
         return {'type': 'collect', 'lhs': nav, 'rhs': tgt}
     assets = []
+    bare = rnd.randrange(1, depth) if rnd.random() < 0.3 else None      # a level that declares no step of its own
     for i, nm in enumerate(names):
         steps = []
         for sn in pool:
-            if i > 0 and rnd.random() < 0.3: continue          # absent at this level
+            if i > 0 and (rnd.random() < 0.3 or i == bare): continue          # absent at this level
             kind = rnd.choice(['none', '->', '+>', '+>']) if i > 0 else rnd.choice(['none', 'none', '->'])
             reaches = None if kind == 'none' else {'overrides': kind == '->', 'stepExpressions': [expr() for _ in range(rnd.randint(1, 2))]}
             steps.append({'name': sn, 'meta': {}, 'type': {'s0': 'or', 's1': 'and', 's2': 'or'}[sn], 'tags': [] if rnd.random() < 0.7 else [f't{i}'],
@@ -267,6 +318,7 @@ def chain_language(rnd: random.Random):
                           'requires': None, 'reaches': reaches})
         assets.append({'name': nm, 'meta': {}, 'category': 'C', 'isAbstract': False, 'superAsset': names[i - 1] if i else None,
                        'variables': [], 'attackSteps': steps})
+    if rnd.random() < 0.4: rnd.shuffle(assets)          # declaration order is free: descendants may come first
     return {'formatVersion': '1.0.0', 'defines': {'id': 'org.verif.chain', 'version': '0.0.1'}, 'categories': [{'name': 'C', 'meta': {}}],
             'assets': assets, 'associations': assocs}
 
